@@ -1,0 +1,60 @@
+//go:build verif
+
+package executor
+
+// Verification hook (add-only): thin exported wrappers around the unexported
+// write-permission predicates of allow.go / execenv.go. No logic here.
+
+import (
+	"github.com/33cn/chain33/account"
+	"github.com/33cn/chain33/client"
+	drivers "github.com/33cn/chain33/system/dapp"
+	"github.com/33cn/chain33/types"
+)
+
+// VerifExecutor is a bare per-block executor environment (no state db, no local db).
+type VerifExecutor struct{ e *executor }
+
+// NewVerifExecutor builds the environment isAllowKeyWrite/loadDriver need.
+func NewVerifExecutor(api client.QueueProtocolAPI, height int64) *VerifExecutor {
+	cfg := api.GetConfig()
+	return &VerifExecutor{e: &executor{
+		api:          api,
+		cfg:          cfg,
+		height:       height,
+		ctx:          &executorCtx{height: height},
+		driverCache:  make(map[string]drivers.Driver),
+		currTxIdx:    -1,
+		coinsAccount: account.NewCoinsAccount(cfg),
+	}}
+}
+
+// IsAllowKeyWrite calls isAllowKeyWrite.
+func (v *VerifExecutor) IsAllowKeyWrite(key, realExecer []byte, tx *types.Transaction, index int) bool {
+	return isAllowKeyWrite(v.e, key, realExecer, tx, index)
+}
+
+// IsAllowExec calls (*executor).isAllowExec.
+func (v *VerifExecutor) IsAllowExec(key []byte, tx *types.Transaction, index int) bool {
+	return v.e.isAllowExec(key, tx, index)
+}
+
+// GetRealExecName calls (*executor).getRealExecName.
+func (v *VerifExecutor) GetRealExecName(tx *types.Transaction, index int) []byte {
+	return v.e.getRealExecName(tx, index)
+}
+
+// CheckKV calls (*executor).checkKV.
+func (v *VerifExecutor) CheckKV(memset []string, kvs []*types.KeyValue) error {
+	return v.e.checkKV(memset, kvs)
+}
+
+// VerifIsAllowLocalKey calls isAllowLocalKey.
+func VerifIsAllowLocalKey(cfg *types.Chain33Config, execer, key []byte) error {
+	return isAllowLocalKey(cfg, execer, key)
+}
+
+// VerifIsAllowLocalKey2 calls isAllowLocalKey2.
+func VerifIsAllowLocalKey2(cfg *types.Chain33Config, execer, key []byte) error {
+	return isAllowLocalKey2(cfg, execer, key)
+}
